@@ -12,9 +12,9 @@ Proof.
   all: unfold set_pc, set_ctx; upd_tac; cbn [apc ab aw actx atimed acomp]; try discriminate; try congruence; auto.
   all: repeat match goal with e : ?v = _ |- _ => is_var v; subst v end.
   all: try (destruct (actx (A s a)); cbn [ret_pc]; discriminate).
-  - intros _ K. rewrite K in Ay. destruct Ay as (_ & _ & _ & _ & _ & _ & NI & _).
+  - intros _ K. rewrite K in Ay. destruct Ay as (_ & _ & _ & _ & _ & _ & _ & NI & _).
     intro E. apply NI. rewrite <- E. now left.
-  - intros K _. rewrite K in Ax. destruct Ax as (_ & _ & _ & _ & _ & _ & NI & _).
+  - intros K _. rewrite K in Ax. destruct Ax as (_ & _ & _ & _ & _ & _ & _ & NI & _).
     intro E. apply NI. rewrite E. now left.
 Qed.
 
@@ -48,6 +48,20 @@ Proof.
   pose proof (nl_nonneg (giv s)). pose proof (nl_nonneg (owe s)). pose proof (nl_nonneg (hand s)). pose proof (nl_nonneg (pre s)). lia.
 Qed.
 Print Assumptions permits_conserved.
+
+(* the counter is exact: what the waiters registered, minus the wake-ups in flight, is precisely
+   the part of the counter below zero -- so get_value() = max(cnt, 0) counts exactly the permits
+   nobody has been promised, and a positive counter means no unflagged registered waiter once the
+   agents in flight (hand) and the early-flagged blockers (pre) have settled *)
+Theorem counter_exact i s : 0 <= i -> Reach i s ->
+  cnt s + nl (ung s) - nl (hand s) - nl (pre s) = Z.max (cnt s) 0.
+Proof. intros Hi R. apply inv_reach in R; [|exact Hi]. destruct (IG _ R) as (_ & _ & _ & G4 & _). exact G4. Qed.
+Corollary positive_counter_no_unserved_waiter i s : 0 <= i -> Reach i s ->
+  0 < cnt s -> hand s = [] -> pre s = [] -> ung s = [].
+Proof.
+  intros Hi R C H P. pose proof (counter_exact i s Hi R) as E. rewrite H, P in E. unfold nl in E. cbn [length] in E.
+  destruct (ung s); [reflexivity | cbn [length] in E; lia].
+Qed.
 
 (* the exact accounting behind it *)
 Theorem permit_accounting i s : 0 <= i -> Reach i s ->
